@@ -2083,7 +2083,12 @@ class Exec:
                 for s2 in brk:
                     exits.append((None, s2))
                 if len(cont) > 1:
-                    raise ExtractionError('multiple continue states')
+                    # several ways to reach the next iteration (explicit `continue`s and the end of the body): mutually exclusive
+                    # paths, folded with the condition each one was taken under (as the exits are, below)
+                    m_ = None
+                    for s2 in reversed(cont):
+                        m_ = s2 if m_ is None else merge_states(s2.pc[-1] if s2.pc else z3.BoolVal(True), s2, m_)
+                    cont = [m_]
                 cur = cont[0] if cont else None
                 if cur is None:
                     break
